@@ -137,6 +137,8 @@ namespace rkcommon {
 
     inline bool Any::operator==(const Any &rhs) const
     {
+      if (!valid() || !rhs.valid())
+        return valid() == rhs.valid();
       return currentValue->isSame(rhs.currentValue.get());
     }
 
@@ -196,8 +198,11 @@ namespace rkcommon {
     inline std::string Any::toString() const
     {
       std::stringstream retval;
-      retval << "Any : (currently holds value of type) --> "
-             << demangle(currentValue->valueTypeID().name());
+      retval << "Any : (currently holds value of type) --> ";
+      if (valid())
+        retval << demangle(currentValue->valueTypeID().name());
+      else
+        retval << "(empty)";
       return retval.str();
     }
 
